@@ -92,7 +92,7 @@ type snapServer struct {
 
 func newSnapServer() *snapServer {
 	s := &snapServer{}
-	s.srv = httptest.NewServer(http.HandlerFunc(func(w http.ResponseWriter, r *http.Request) {
+	s.srv = newLoopbackServer(http.HandlerFunc(func(w http.ResponseWriter, r *http.Request) {
 		s.mu.Lock()
 		h := s.h
 		s.mu.Unlock()
@@ -237,7 +237,7 @@ func activeConfig(node string) ha.SyncConfig {
 func newRealProducer() *realProducer {
 	p := &realProducer{store: ha.NewInMemorySessionStore()}
 	p.act = ha.NewHASyncer(activeConfig("active"), p.store, zap.NewNop())
-	p.srv = httptest.NewServer(p.act.VerifActiveHandler())
+	p.srv = newLoopbackServer(p.act.VerifActiveHandler())
 	p.tr = &http.Transport{}
 	p.client = &http.Client{Transport: p.tr}
 	return p
